@@ -726,6 +726,11 @@ func c14GenAPIKey(r *proto.Rng) *c14Case {
 	}
 	c.srv = []string{"apikey", sname, sin, c14Variant(r)}
 	c14Place(r, c, []string{"apikey", name, cin, val})
+	if r.Chance(1, 5) {
+		// a form field of the key's name: a key is looked for in the location it is declared in, nowhere else
+		c.mtype = 1
+		c.fk, c.fv = append(c.fk, sname), append(c.fv, "decoy-"+c14AnyBytes(r, r.Intn(4)))
+	}
 	if r.Chance(1, 6) {
 		// the parameters had already put something there
 		if in == "header" {
